@@ -580,7 +580,8 @@ theorem handed_out_lists_are_the_callers (o : Own K V) (h : Sep o) (k : K) :
 `Generated.C01.methods` is regenerated on every run from the current source of BOTH copies of the class
 (`boltons/dictutils.py`, `boltons/urlutils.py`) by a static, transitive effect analysis (`regen` in
 `harness/bv/props/c01.py`): for every public method, may it write the dict's own storage (`dictW`), may
-it write the linked list or its cell index (`llW`).  The theorems below are re-proved over the
+it write the linked list or its cell index (`llW`), may it write THROUGH one of its arguments (`argW`), may it store an
+argument object itself as a per-key value list (`keepsArg`).  The theorems below are re-proved over the
 regenerated table, so they are proof obligations about the code as it is today. -/
 
 /-- the operations the model has a state-changing `HOp` for (`__init__` = `new`, `__setstate__` =
@@ -607,7 +608,7 @@ theorem source_mutators_write_both_structures :
     inherited `popitem` / `setdefault` / … would change the dict behind the linked list's back) -/
 theorem source_modelled_mutators_present :
     (∀ f ∈ ["dictutils", "urlutils"], ∀ n ∈ modelledMutators,
-      (⟨f, n, true, true⟩ : Generated.C01.Method) ∈ Generated.C01.methods) ∧
+      (⟨f, n, true, true, false, false⟩ : Generated.C01.Method) ∈ Generated.C01.methods) ∧
     Generated.C01.inheritedMutators = [] := by decide
 
 /-- the readers, which the model takes to be pure functions of the state, write neither structure in
@@ -615,6 +616,13 @@ theorem source_modelled_mutators_present :
     read" depend on the reads made before) -/
 theorem source_readers_write_nothing :
     ∀ m ∈ Generated.C01.methods, m.name ∈ modelledReaders → m.dictW = false ∧ m.llW = false := by decide
+
+/-- arguments are only read and never kept: in the current source no public method may write through an
+    object the caller passed in (the model hands `update` / `update_extend` / `==` / the constructor their
+    OMD, mapping and iterable arguments by value), and none may store an argument object itself as a
+    per-key value list (the `Sep` invariant of the ownership layer: `addlist` copies, `[]=` wraps) -/
+theorem source_arguments_only_read :
+    ∀ m ∈ Generated.C01.methods, m.argW = false ∧ m.keepsArg = false := by decide
 
 /-! ## non-vacuity: concrete histories and states the theorems speak about -/
 
@@ -721,10 +729,10 @@ example : ((OMD.fromPairs [(1, 2), (0, 3), (1, 0)] : OMD Nat Nat).sorted
 example : (⟨[(0, [])], [(0, 1), (0, 2)]⟩ : OMD Nat Nat).items = .error .indexError := rfl
 
 /-- the regenerated table is not empty and has both kinds of rows, in both copies -/
-example : (⟨"dictutils", "add", true, true⟩ : Generated.C01.Method) ∈ Generated.C01.methods ∧
-    (⟨"urlutils", "__reversed__", false, false⟩ : Generated.C01.Method) ∈ Generated.C01.methods := by decide
+example : (⟨"dictutils", "add", true, true, false, false⟩ : Generated.C01.Method) ∈ Generated.C01.methods ∧
+    (⟨"urlutils", "__reversed__", false, false, false, false⟩ : Generated.C01.Method) ∈ Generated.C01.methods := by decide
 /-- what the first theorem excludes: a method that deletes from the dict and leaves the cells linked -/
-example : ¬ (∀ m ∈ [(⟨"dictutils", "__delitem__", true, false⟩ : Generated.C01.Method)], m.dictW = m.llW) := by decide
+example : ¬ (∀ m ∈ [(⟨"dictutils", "__delitem__", true, false, false, false⟩ : Generated.C01.Method)], m.dictW = m.llW) := by decide
 
 /-- a mapping that raises half way, a rejected call, `fromkeys` with a repeated key, the views of an interleaved state -/
 example : ((hrun HState.init [.add 0 1, .add 1 2, .add 0 3, .updateMapAbort [(1, 5), (2, 6)], .rejected]).map
